@@ -10,7 +10,7 @@ from harness.objrec import ObjRun, BOXES, tup
 
 RULES = {
     "C01": "real runs of DE, DE2, Nelder-Mead and Powell (class API, stepped, snapshot after EVERY iteration) and of the "
-           "fmin/fmin_powell/diffev/diffev2/lattice/buckshot wrappers on problems drawn by seed from a catalogue (5 cost "
+           "fmin/fmin_powell/diffev/diffev2/lattice/buckshot/sparsity wrappers on problems drawn by seed from a catalogue (5 cost "
            "families incl. array-valued with reducers, plateaus and +inf walls; 6 constraint families pure and in-place; 3 "
            "penalties; 6 boxes x tight/clip modes; installation at the start or mid-run; dims 1-3); the recorder logs every "
            "call of the user's cost and TLC validates each trace against Trace_Objective. non-trivial = finite best energy "
@@ -75,7 +75,7 @@ def quiet(fn, *a, **k):
 
 # ------------------------------------------------------------------------------------------------ wrappers
 def run_wrapper(name, cfg, seed):
-    """fmin / fmin_powell / diffev / diffev2 / lattice / buckshot with a recorded cost; final Boundary only"""
+    """fmin / fmin_powell / diffev / diffev2 / lattice / buckshot / sparsity with a recorded cost; final Boundary only"""
     import numpy as np
     r = ObjRun(cfg, seed=seed)
     dim = cfg["dim"]
@@ -111,14 +111,14 @@ def run_wrapper(name, cfg, seed):
         fin = lambda v, d: d if (v is None or v in (float("inf"), -float("inf"))) else v
         out = fn(r.cost, x0 if b is None else list(zip([fin(v, -1e3) for v in bx[0]], [fin(v, 1e3) for v in bx[1]])),
                  npop=4, maxiter=cfg["maxgen"], full_output=1, disp=0, bounds=b, **kw)
-    elif name in ("lattice", "buckshot"):
+    elif name in ("lattice", "buckshot", "sparsity"):
         if bx is None:
             return None
         fn = getattr(ms, name)
         b = kw.pop("bounds")
         b = [((-3.0 if (v is None or v == -float("inf")) else v), (3.0 if (w is None or w == float("inf")) else w)) for v, w in b]
         r.box = ([v for v, w in b], [w for v, w in b])
-        arg = {"lattice": dict(nbins=2), "buckshot": dict(npts=3)}[name]
+        arg = {"lattice": dict(nbins=2), "buckshot": dict(npts=3), "sparsity": dict(npts=2)}[name]
         out = fn(r.cost, dim, bounds=b, maxiter=cfg["maxgen"], full_output=1, disp=0, **arg, **kw)
     else:
         raise ValueError(name)
@@ -243,7 +243,7 @@ def run(prop, a):
             r.events.append({"ev": "Raise", "what": repr(ex)[:200]})
         traces.append(strip(r.finish_ids()))
         meta.append((cfg["kind"], cfg, r))
-    wnames = ["fmin", "fmin_powell", "diffev", "diffev2", "lattice", "buckshot"]
+    wnames = ["fmin", "fmin_powell", "diffev", "diffev2", "lattice", "buckshot", "sparsity"]
     for i in range(nwrap):
         name = wnames[i % len(wnames)]
         cfg = rand_cfg(rng)
